@@ -65,24 +65,44 @@ PROFILES = {
     "C12": dict(sel=lambda f: bool(f["tags"] or f["events"] or f["deps"]) or f["idx"] % 7 == 0, pure=True,
                 events=["tag", "event", "dep", "invc", "invcn"], threads=1, heavy_inval=True),
     "C13": dict(sel=lambda f: f["fl"] != "t" or f["idx"] % 5 == 0, pure=True,
-                events=["invw", "invall", "invwn", "tag", "invc"], threads=1, heavy_inval=True),
+                events=["invw", "invall", "invwn", "tag", "invc", "dep", "event"], threads=1, heavy_inval=True),
     "C14": dict(sel=lambda f: True, pure=True, events=[], threads=4),
     "C04": dict(sel=lambda f: f["limit"] is not None and not f["inval_on"], pure=True, events=["invw", "invall", "tag"], threads=2),
     "C06": dict(sel=lambda f: f["ttl"] is not None, pure=True, events=["tick", "invw"], threads=2),
     "C07": dict(sel=lambda f: f["pol"] in ("fifo", "lru") and (f["limit"] or f["mem"]), pure=True, events=["invw", "invall"], threads=1),
     "C08": dict(sel=lambda f: f["pol"] in ("lfu", "arc", "tlru") and (f["limit"] or f["mem"]), pure=True, events=["invw", "tick"], threads=1),
     "C15": dict(sel=lambda f: f["fl"] != "t", pure=True, events=["sget", "sreset", "sgetn", "tick", "invw"], threads=3),
-    "C19": dict(sel=lambda f: True, pure=False, events=["tick", "tag", "invw", "sget"], threads=2),
+    "C19": dict(sel=lambda f: True, pure=True, events=["tick", "tag", "invw", "sget"], threads=2),
     "C16": dict(sel=lambda f: True, pure=False, events=["tick", "tag", "event", "dep", "invc", "invw", "invall", "sget", "sreset"], threads=3),
 }
 
 LENS = [4, 8, 16, 40, 76]
-TAGS = ["t1", "t2", "tx"]
-EVENTS = ["e1", "e2", "ex"]
-DEPS = ["d1", "d2", "dx"]
+TAGS = ["t1", "t2", "tx", "chainA", "chainB"]
+EVENTS = ["e1", "e2", "ex", "chainA"]
+DEPS = ["d1", "d2", "dx", "chainA", "chainB"]
+
+
+def gen_chain_case(r, fns):
+    """caches whose names are labels of one another: invalidation must not cascade"""
+    chain = [f for f in fns if f["name"].startswith("chain")]
+    evs = []
+    def calls():
+        for f in chain:
+            for x in range(1 + r.below(3)):
+                v = (f["idx"] * 37 + x * 11) % 500 + 1
+                evs.append("E 0 call %d %d 0 ok %d %d 0 1" % (f["idx"], x, v, LENS[x % 5]))
+    calls()
+    for _ in range(1 + r.below(3)):
+        kind = r.pick(["dep", "dep", "tag", "event"])
+        label = r.pick(["d1", "chainA", "chainB", "t2", "chainC", "dx"])
+        evs.append("E 0 %s %s" % (kind, label))
+        calls()
+    return chain, evs
 
 
 def gen_case(r, fns, prof, nev):
+    if prof.get("heavy_inval") and r.chance(1, 6):
+        return gen_chain_case(r, fns)
     pool = [f for f in fns if prof["sel"](f)]
     k = 1 + r.below(3)
     chosen = []
@@ -90,6 +110,15 @@ def gen_case(r, fns, prof, nev):
         f = r.pick(pool)
         if f not in chosen:
             chosen.append(f)
+    if prof.get("heavy_inval") and r.chance(1, 3):
+        # a group of caches whose labels overlap or whose names are labels of one another
+        labelled = [f for f in pool if f["tags"] or f["events"] or f["deps"]]
+        if labelled:
+            seed_f = r.pick(labelled)
+            labels = set(seed_f["tags"] + seed_f["events"] + seed_f["deps"] + [seed_f["name"]])
+            group = [f for f in labelled if labels & set(f["tags"] + f["events"] + f["deps"] + [f["name"]])]
+            chosen = group[:4] if len(group) <= 4 else [r.pick(group) for _ in range(4)]
+            chosen = list({f["idx"]: f for f in chosen}.values())
     evs = []
     vcount = 0
     heavy = prof.get("heavy_inval", False)
